@@ -72,4 +72,40 @@ package dns
 //@   callsite "WriteMsg" replyempty: len(arg1.Answer) == 0 && len(arg1.Ns) == 0 && len(arg1.Extra) == 0
 //@   exit hdrerr: callres("unpackMsgHdr", 2) != nil ==> !called("WriteMsg") && !called("ServeDNS")
 //@   exit ignored: action == MsgIgnore ==> !called("WriteMsg") && !called("ServeDNS")
+//@   exit reported: callres("unpackMsgHdr", 2) != nil || (called("unpack") && callres("unpack") != nil) ==> called("MsgInvalidFunc")
 //@   exit handled: called("ServeDNS") || called("WriteMsg") || action == MsgIgnore || callres("unpackMsgHdr", 2) != nil
+
+// the REFUSED (and SERVFAIL) reply: a fresh message shaped by SetRcode from the request, with RCODE 5 (2)
+//@ func handleRefused [C14]
+//@   opt no-safety
+//@   requires r != nil
+//@   callsite "SetRcode" shape: arg1 == r && arg2 == 5 && fresh(arg0)
+//@   callsite "WriteMsg" sent: arg0 == callarg("SetRcode", 0) && called("SetRcode")
+//@ func HandleFailed [C14]
+//@   opt no-safety
+//@   requires r != nil
+//@   callsite "SetRcode" shape: arg1 == r && arg2 == 2 && fresh(arg0)
+//@   callsite "WriteMsg" sent: arg0 == callarg("SetRcode", 0) && called("SetRcode")
+
+// dispatch: the first question's name and type select the handler; without a question or a match the request
+// is refused; patterns are registered and removed under their canonical (lower-case, fully qualified) form,
+// the form match looks names up by
+//@ func (*ServeMux).ServeDNS [C14]
+//@   opt no-safety
+//@   requires mux != nil && req != nil
+//@   callsite "match" first: len(req.Question) >= 1 && arg1 == req.Question[0].Name && arg2 == req.Question[0].Qtype
+//@   callsite "ServeDNS" matched: called("match") && callres("match") != nil && arg0 == w && arg1 == req
+//@   callsite "handleRefused" nomatch: (len(req.Question) == 0 || (called("match") && callres("match") == nil)) && arg0 == w && arg1 == req
+//@   exit served: called("ServeDNS") || called("handleRefused")
+//@ func (*ServeMux).Handle [C14]
+//@   opt no-safety
+//@   requires mux != nil
+//@   may-panic
+//@   callsite "CanonicalName" pat: arg0 == pattern
+//@   exit reg: maphas(mux.z, callres("CanonicalName")) && mapget(mux.z, callres("CanonicalName")) == handler
+//@ func (*ServeMux).HandleRemove [C14]
+//@   opt no-safety
+//@   requires mux != nil
+//@   may-panic
+//@   callsite "CanonicalName" pat: arg0 == pattern
+//@   exit gone: !maphas(mux.z, callres("CanonicalName"))
